@@ -168,6 +168,7 @@ func init() {
 			{Scenario: "sess-mtu", Stratum: "", Quick: 500, Thorough: 15000, PerJob: 8},
 			{Scenario: "sess-mtu", Stratum: "initial", Quick: 250, Thorough: 6000, PerJob: 8},
 			{Scenario: "sess-mtu", Stratum: "parity-straddle", Quick: 60, Thorough: 600, PerJob: 8},
+			{Scenario: "sess-mtu", Stratum: "skip-shrink", Quick: 250, Thorough: 6000, PerJob: 8},
 			{Scenario: "xfer", Stratum: "", Quick: 250, Thorough: 6000, PerJob: 8},
 		},
 		QuickBudget: 60 * time.Second, ThoroughBudget: 25 * time.Minute,
